@@ -1,4 +1,5 @@
 import PelModel
+import PelGen.Live
 /-
   Line-protocol driver: runs the executable model (and the declarative specs) on
   requests written by the Python harness.  One request per line, one reply per line.
@@ -14,10 +15,119 @@ def pSelCfg : P SelCfg := do
 
 def bits (f : Nat → Bool) (n : Nat) : String := String.ofList ((List.range n).map fun i => if f i then '1' else '0')
 
+def liveTables (compIds : List (Text × List (Text × Text))) : Tables :=
+  { creators := Live.creatorIDs.getD [], sectionNames := Live.sectionNames.getD [],
+    subsystems := Live.subsystemValues.getD [], severities := Live.severityValues.getD [],
+    eventTypes := Live.eventTypeValues.getD [], eventScopes := Live.eventScopeValues.getD [],
+    actionFlags := Live.actionFlagsValues.getD [], transStates := Live.transmissionStates.getD [],
+    failingCompTypes := Live.failingComponentType.getD [], calloutPriorities := Live.calloutPriorityValues.getD [],
+    compIds := compIds }
+
+def defaultEnv : Env :=
+  { T := liveTables [], ud := fun _ => .absent, src := { callout := fun _ => .absent, src := fun _ => .absent },
+    allowPlugins := true }
+
 structure DrvState where
   tbls : Array (List PteEntry) := #[]
   strs : Array (List TraceString) := #[]
   flds : Array (List HlogField) := #[]
+  env : Env := defaultEnv
+
+def pAHdr : P AHdr := do let ver ← pNum; let sub ← pNum; let comp ← pNum; pure { ver, sub, comp }
+def pAPH : P APH := do
+  let hdr ← pAHdr; let create ← pBytes; let commit ← pBytes; let creator ← pNum; let resv0 ← pNum; let resv1 ← pNum
+  let obmc ← pNum; let cver ← pNum; let plid ← pNum; let eid ← pNum
+  pure { hdr, create, commit, creator, resv0, resv1, obmc, cver, plid, eid }
+def pAUH : P AUH := do
+  let hdr ← pAHdr; let subsys ← pNum; let scope ← pNum; let sev ← pNum; let etype ← pNum; let resv ← pNum
+  let pd ← pNum; let pv ← pNum; let af ← pNum; let states ← pNum
+  pure { hdr, subsys, scope, sev, etype, resv, pd, pv, af, states }
+def pACallout : P ACallout := do
+  let flags ← pNum; let priority ← pNum; let loc ← pBytes
+  let ff ← pNum; let pn ← pBytes; let ccin ← pBytes; let sn ← pBytes
+  let hasPce ← pBool
+  let pce ← if hasPce then (do
+      let flags ← pNum; let mtm ← pBytes; let sn ← pBytes; let name ← pBytes
+      pure (some ({ flags, mtm, sn, name } : APce))) else pure none
+  let hasMru ← pBool
+  let mru ← if hasMru then (do
+      let flagsHi ← pNum; let resv ← pNum
+      let items ← pList (do let a ← pNum; let b ← pNum; pure (a, b))
+      pure (some ({ flagsHi, resv, items } : AMru))) else pure none
+  pure { flags, priority, loc, fru := { flags := ff, pn, ccin, sn }, pce, mru }
+def pASection : P ASection := do
+  let kind ← pWord
+  let hdr ← pAHdr
+  match kind with
+  | "src" => do
+      let primary ← pBool
+      let version ← pNum; let flagsHi ← pNum; let resv1 ← pNum; let wordCount ← pNum; let resv2 ← pNum; let size ← pNum
+      let words ← pList pNum; let ascii ← pBytes
+      let has ← pBool
+      let callouts ← if has then (do
+          let subId ← pNum; let subFlags ← pNum; let cs ← pList pACallout
+          pure (some ({ subId, subFlags, callouts := cs } : ACalloutSec))) else pure none
+      pure { hdr, body := .src primary { version, flagsHi, resv1, wordCount, resv2, size, words, ascii, callouts } }
+  | "eh" => do
+      let mtm ← pBytes; let sn ← pBytes; let fw ← pBytes; let subfw ← pBytes; let resv ← pNum
+      let refTime ← pBytes; let resv3 ← pBytes; let sym ← pBytes
+      pure { hdr, body := .eh { mtm, sn, fw, subfw, resv, refTime, resv3, sym } }
+  | "mt" => do let mtm ← pBytes; let sn ← pBytes; pure { hdr, body := .mt { mtm, sn } }
+  | "lp" => do
+      let primary ← pNum; let logId ← pNum; let name ← pBytes; let targets ← pList pNum; let pad ← pNum
+      pure { hdr, body := .lp { primary, logId, name, targets, pad } }
+  | "ud" => do let p ← pBytes; pure { hdr, body := .ud p }
+  | "ed" => do let c ← pNum; let r1 ← pNum; let r2 ← pNum; let p ← pBytes; pure { hdr, body := .ed c r1 r2 p }
+  | "other" => do let id ← pNum; let p ← pBytes; pure { hdr, body := .other id p }
+  | _ => failure
+def pAPel : P APel := do
+  let ph ← pAPH; let uh ← pAUH; let sections ← pList pASection
+  pure { ph, uh, sections }
+
+def pUdPlugin : P UdPlugin := do
+  let k ← pWord
+  match k with
+  | "absent" => pure .absent
+  | "echo" => pure .echo
+  | "raises" => do let m ← pText; pure (.raises m)
+  | "none" => pure .returnsNone
+  | "text" => do let t ← pText; pure (.returnsText t)
+  | _ => failure
+def pSrcPlugin : P SrcPlugin := do
+  let k ← pWord
+  match k with
+  | "absent" => pure .absent
+  | "echo" => pure .echo
+  | "raises" => pure .raises
+  | "text" => do let t ← pText; pure (.returnsText t)
+  | _ => failure
+def pCalloutPlugin : P CalloutPlugin := do
+  let k ← pWord
+  match k with
+  | "absent" => pure .absent
+  | "raises" => pure .raises
+  | "table" => do
+      let t ← pList (do let k ← pText; let ls ← pList pText; pure (k, ls))
+      pure (.table t)
+  | _ => failure
+
+def lookupFn {β} (l : List (Text × β)) (dflt : β) : Text → β := fun k =>
+  match l.find? (fun p => p.1 == k) with
+  | some (_, v) => v
+  | none => dflt
+
+def outErr : Err → String
+  | .range => "range" | .assert => "assert" | .decode => "decode" | .other => "other" | .unsupported => "unsupported"
+def outOutcome : Outcome → String
+  | .doc eid d => "D " ++ outText eid ++ " " ++ outJ d
+  | .filtered => "F"
+  | .badHeader => "B"
+  | .error .unsupported => "U"
+  | .error e => "E " ++ outErr e
+def outExcJ : Except Err J → String
+  | .ok d => "D " ++ outJ d
+  | .error .unsupported => "U"
+  | .error e => "E " ++ outErr e
 
 def pPte : P PteEntry := do
   let pattern ← pText; let fmt ← pText; let params ← pList pNum
@@ -48,6 +158,24 @@ def handleSt (st : DrvState) (op : String) : P (DrvState × String) :=
   | "deffld" => do
       let t ← pList pField; pEnd
       pure ({ st with flds := st.flds.push t }, s!"ok {st.flds.size}")
+  | "setenv" => do
+      -- allowPlugins, component-id files, ud / src / callout plugin behaviours (everything else: absent)
+      let allow ← pBool
+      let compIds ← pList (do let c ← pText; let m ← pList (do let k ← pText; let v ← pText; pure (k, v)); pure (c, m))
+      let uds ← pList (do let n ← pText; let b ← pUdPlugin; pure (n, b))
+      let srcs ← pList (do let n ← pText; let b ← pSrcPlugin; pure (n, b))
+      let cos ← pList (do let n ← pText; let b ← pCalloutPlugin; pure (n, b))
+      pEnd
+      let env : Env := { T := liveTables compIds, ud := lookupFn uds .absent,
+                         src := { callout := lookupFn cos .absent, src := lookupFn srcs .absent }, allowPlugins := allow }
+      pure ({ st with env := env }, "ok")
+  | "pelraw" => do
+      let c ← pSelCfg; let b ← pBytes; pEnd
+      pure (st, "ok " ++ outOutcome (parsePEL st.env c b))
+  | "pelspec" => do
+      let c ← pSelCfg; let p ← pAPel; let trailing ← pBytes; pEnd
+      let b := p.enc ++ trailing
+      pure (st, "ok " ++ outBytes b ++ " " ++ outOutcome (parsePEL st.env c b) ++ " " ++ outExcJ (render st.env p))
   | "ilog" => do
       let i ← pNum; let b ← pBytes; pEnd
       let t := st.tbls[i]!
@@ -135,6 +263,9 @@ def handle (op : String) : P String :=
   | "ppdoc" => do
       let desired ← pNum; let d ← pJ; pEnd
       pure ("ok " ++ outText (prettyPrint desired (dumps d)))
+  | "atext" => do
+      let desired ← pNum; let d ← pJ; pEnd
+      pure ("ok " ++ outText (aText desired d 0) ++ " " ++ outBool d.keysDistinct)
   | "loads" => do
       let t ← pText; pEnd
       match loads t with
